@@ -76,3 +76,11 @@ End Base.
 Arguments gself F : clear implicits.
 Arguments eigh_result F : clear implicits.
 
+(** evaluate, for a concrete key, everything the regenerated voigt model says about it (store indices,
+    standard tuple, multiplicity) - used by the FICT and TARGET groups after the case split over the 21 keys *)
+Ltac key_facts :=
+  cbv [zidx orb gen_C mod_create mod_from_voigt strain_from_voigt zlookup voigt_table obind sort2_by sv rlookup
+       strain_eqb mod_standard multiplicity b2z negb andb fst snd Z.of_nat Pos.of_succ_nat Pos.succ
+       Z.eqb Z.ltb Z.compare Pos.eqb Pos.compare Pos.compare_cont Z.shiftl Pos.iter Z.mul Pos.mul Z.sub Z.add Z.opp
+       Z.pos_sub Pos.pred_double Z.succ_double Z.pred_double Z.double Z.to_nat Pos.to_nat Pos.iter_op Nat.add
+       Init.Nat.add std_of mult Nat.eqb Nat.ltb Nat.leb Nat.mul Init.Nat.mul Pos.add Pos.add_carry].
